@@ -6,8 +6,8 @@ import r_counters
 
 
 def _strip(t):
-    while isinstance(t, tuple) and t and t[0] in ('ref', 'deref'):
-        t = t[1]
+    while isinstance(t, tuple) and t and (t[0] in ('ref', 'deref') or t[0] == 'cast' and t[1] == 'PointerCoercion'):
+        t = t[2] if t[0] == 'cast' else t[1]     # `&T -> &dyn OHLCV` is the same candle
     return t
 
 
@@ -16,6 +16,14 @@ def _self_field_name(t):
     if t[0] == 'field' and _strip(t[1])[0] == 'arg' and _strip(t[1])[1] == 1:
         return t[2]
     return None
+
+
+def _field_of_literal(t, fld):
+    """operand stored in field `fld` by a struct literal (seen through moves / copies); the tree itself when it is not a literal"""
+    t0 = _strip(t)
+    if t0[0] == 'agg' and t0[1] == 'adt' and len(t0) > 4 and fld in (t0[4] or ()):
+        return t0[3][list(t0[4]).index(fld)]
+    return t
 
 
 def _is_close_of_input(t, body):
@@ -58,12 +66,23 @@ def s07t_true_range_reference(ctx):
                     stores = []
                     for bb in bodies:
                         for bj, si, s in bb.stmts():
-                            if s['s'] == 'assign' and self_field_of_place(s['pl']) == [fld]:
+                            if s['s'] != 'assign':
+                                continue
+                            fp = self_field_of_place(s['pl'])
+                            if fp == [fld]:
                                 stores.append((bb, bj, s['sp']['l'], bb.tree_of_rvalue(s['rv'])))
+                            elif fp == []:
+                                # `*self = Self { .. }`: the whole state is replaced; the field's new value is the literal's operand
+                                stores.append((bb, bj, s['sp']['l'], _field_of_literal(bb.tree_of_rvalue(s['rv']), fld)))
                         for bj in range(bb.n):
                             tm = bb.blocks[bj]['term']
-                            if tm['t'] == 'call' and self_field_of_place(tm['dest']) == [fld]:
+                            if tm['t'] != 'call':
+                                continue
+                            fp = self_field_of_place(tm['dest'])
+                            if fp == [fld]:
                                 stores.append((bb, bj, bb.term_line(bj), bb.tree_of_call(tm, 0, bj)))
+                            elif fp == []:
+                                stores.append((bb, bj, bb.term_line(bj), ('unknown', 'whole state returned by a call')))
                     if not stores:
                         r.violate(key + '|reference-never-updated|' + fld, '%s takes its true range against self.%s, which next() never updates' % (short, fld), b.file, b.term_line(bi))
                         continue
